@@ -30,8 +30,9 @@ struct GenCfg {
 };
 
 // mult[i] in {0,1,1,2,4}: swarm multiplier per op kind
-inline GenCfg makeGenCfg(Kind kind, bool directed, bool force, sim::Rng &r, bool swarm, int setlabBoost = 1) {
+inline GenCfg makeGenCfg(Kind kind, bool directed, bool force, sim::Rng &r, bool swarm, int setlabBoost = 1, bool extreme = false) {
     GenCfg c;
+    c.extreme = extreme;
     c.kind = kind;
     c.directed = directed;
     c.force = force;
@@ -45,7 +46,7 @@ inline GenCfg makeGenCfg(Kind kind, bool directed, bool force, sim::Rng &r, bool
             c.add("resize", m(3));
         } else {
             c.add(kind == MULTI ? "addmul" : "add", 40);
-            if (kind == MULTI) c.add("add", m(10));
+            if (kind == MULTI && !extreme) c.add("add", m(10)); // (a copy of multiplicity 1 among extreme copies makes the total unspecified)
             c.add("dedup", m(6) + 1);
             c.add("resize", m(3));
         }
@@ -107,8 +108,12 @@ inline sim::Op genMutator(sim::Rng &r, const GenCfg &c, const sim::Op &prev) {
         else o.y |= F_FORCE;
         // ~70% of forced copies repeat the label of the previous op so that "all copies carry the same label" is common
         if (r.pm(700)) o.x = prev.x;
-        // extreme multiplicities: all copies of a pair carry the same value, so that the totals stay specified
-        if (c.extreme) o.x = ((o.a + o.b) * 7 + o.a * o.b) & 15;
+        // extreme multiplicities: many copies of few pairs, and all copies of a pair carry the same value, so that the totals
+        // stay specified while the removed multiplicities of one neighbour list can exceed 32 bits
+        if (c.extreme) {
+            if (r.pm(550)) { o.a = prev.a; o.b = prev.b; }
+            o.x = ((o.a + o.b) * 7 + o.a * o.b) & 15;
+        }
     }
     return o;
 }
